@@ -284,6 +284,8 @@ def c05():
         R("c05-svd-no-hermitian-flag", "C05", PUBS, "        AAsym = A.H.matmul(A, is_hermitian=True)", "        AAsym = A.H.matmul(A)", "C05-S"),
         R("c05-svd-vh-noconj", "C05", PUBS, "    vh = v.transpose(-2, -1).conj()", "    vh = v.transpose(-2, -1)", ["C05-S", "C02-H"]),
         R("c05-svd-noclamp", "C05", PUBS, "    eivals = torch.clamp(eivals, min=0.0)\n", "", "C05-S"),
+        R("c05-svd-respelled-ok", "C05", PUBS, "    eivals = torch.clamp(eivals, min=0.0)\n    s = torch.sqrt(eivals)  # (*BA, k)", "    eivals = eivals.clamp(min=0)\n    s = eivals.sqrt()  # (*BA, k)", None, expect="silent"),
+        R("c05-svd-vh-respelled-ok", "C05", PUBS, "    vh = v.transpose(-2, -1).conj()", "    vh = v.conj().transpose(-1, -2)", None, expect="silent"),
         R("c05-hermitian-check-dropped", "C05", PUBS, "        assert_runtime(M.is_hermitian, \"The linear operator M must be Hermitian\")\n", "", "C05-V"),
     ]
 
